@@ -295,8 +295,11 @@ def validate_traces(ck, cases, label, expect_reject=None):
 
 def random_instance(rnd):
     P = rnd.randint(1, 5)
+    high = rnd.random() < 0.12
+    if high:
+        P = rnd.choice([9, 10, 11, 12])      # decaploids / pooled samples: allele dosages above 8
     while True:
-        K = rnd.randint(1, 5)
+        K = rnd.randint(1, 5) if not high else rnd.randint(2, 3)
         N = rnd.randint(1, 4) if K > 1 else rnd.randint(0, 2)
         A = [rnd.randint(2, 3) for _ in range(N)]
         H = [[rnd.randrange(A[j]) for j in range(N)] for _ in range(K)]
@@ -305,9 +308,9 @@ def random_instance(rnd):
     w = [rnd.randint(0, 4) for _ in range(K)]
     if sum(w) == 0:
         w[rnd.randrange(K)] = 1
-    Fn = rnd.choice([0, 0, 1, 3, 5, 8, 11, 15])
+    Fn = rnd.choice([0, 0, 1, 3, 5, 8, 11, 15]) if not high else rnd.choice([0, 0, 0, 3, 8])
     cells = set()
-    for _ in range(rnd.randint(0, 4)):
+    for _ in range(rnd.randint(0, 4) if not high else rnd.randint(0, 1)):
         cells.add(tuple(rnd.choice([-1] + list(range(A[j]))) for j in range(N)))
     reads = [{"cells": list(c), "cnt": rnd.randint(1, 3)} for c in sorted(cells)]
     return {"P": P, "m": "random", "Fn": Fn, "Fd": 16, "pat": "random", "K": K, "N": N, "H": H, "A": A, "w": w, "reads": reads}
